@@ -172,7 +172,23 @@ def main():
             tw = dict(base, name=c['name'] + '#twin', kind='twin', timeout=min(60, base['timeout']),
                       param=dict(param, twin=True))
             specs.append(tw)
-    results = {}
+    class Results(dict):
+        """per-condition verdicts; every verdict is also appended to .work/<ID>.<tier>.progress.jsonl as it arrives so that
+        a long run can be followed (and salvaged) from outside"""
+        def __setitem__(self, k, v):
+            dict.__setitem__(self, k, v)
+            try:
+                os.makedirs(os.path.join(ROOT, '.work'), exist_ok=True)
+                with open(os.path.join(ROOT, '.work', '%s.%s.progress.jsonl' % (pid, a.tier)), 'a') as pf:
+                    pf.write(json.dumps({'name': k, 'status': v.get('status'), 'paths': v.get('paths'),
+                                         'cpu_s': v.get('cpu_s'), 'cex': v.get('cex_args')}, default=str) + '\n')
+            except OSError:
+                pass
+    results = Results()
+    try:
+        os.remove(os.path.join(ROOT, '.work', '%s.%s.progress.jsonl' % (pid, a.tier)))
+    except OSError:
+        pass
     by_name = {s['name']: s for s in specs}
     retries = {}
     with cf.ThreadPoolExecutor(max_workers=a.jobs) as pool:
